@@ -223,4 +223,35 @@ def genToken (kind : String) : Gen Bytes := do
   | "doppler" => return strBytes "dp.pt." ++ (← hexChars 40)
   | _ => return strBytes "SG." ++ (← hexChars 22) ++ strBytes "." ++ (← hexChars 43)
 
+/-- keyword-context credentials: the OLDER format of detectors that exist in several versions under one detector type
+(Heroku v1, npm v1, CircleCI v1, Buildkite v1, Typeform v1) and two current ones (GitHub, npm v2).  The
+planted text is `keyword … secret`; the detector reports the secret alone, so the generator also returns how many
+leading bytes of the planted text are context (0 for the self-describing formats above). -/
+def contextKinds : List String := ["heroku1", "npm1", "circle1", "buildkite1", "typeform1", "github2", "npm2"]
+
+def allTokenKinds : List String := tokenKinds ++ contextKinds
+
+def uuidChars : Gen Bytes := do
+  return (← hexChars 8) ++ strBytes "-" ++ (← hexChars 4) ++ strBytes "-4" ++ (← hexChars 3) ++ strBytes "-a" ++ (← hexChars 3) ++
+    strBytes "-" ++ (← hexChars 12)
+
+def alnumChars (n : Nat) : Gen Bytes := do
+  let cs := "abcdefghijkmnpqrstuvwxyzABCDEFGHJKLMNPQRSTUVWXYZ23456789".toList
+  let ds ← Gen.listOf n (Gen.below cs.length)
+  return ds.map fun d => (cs.getD d 'a').toNat.toUInt8
+
+/-- (planted text, number of leading context bytes) -/
+def genTokenCtx (kind : String) : Gen (Bytes × Nat) := do
+  let ctx (pre : String) (sec : Bytes) : Bytes × Nat := (strBytes pre ++ sec, pre.length)
+  match kind with
+  | "heroku1" => return ctx "HEROKU_API_KEY=" (← uuidChars)
+  | "npm1" => return ctx "npm token " (← uuidChars)
+  | "circle1" => return ctx "circle token " (← hexChars 40)
+  | "buildkite1" => return ctx "buildkite " (← hexChars 40)
+  | "typeform1" => return ctx "typeform " (← hexChars 44)
+  | "gitlab1" => return ctx "gitlab token " (← alnumChars 20)
+  | "github2" => return (strBytes "ghp_" ++ (← alnumChars 36), 0)
+  | "npm2" => return (strBytes "npm_" ++ (← alnumChars 36), 0)
+  | _ => return ((← genToken kind), 0)
+
 end PgVerif.Gen.Search
